@@ -777,7 +777,11 @@ def run(ctx):
                    f"graphs, split copies and the model's own split; component lists == igraph's; "
                    f"the loop stores at every node its own component's value (since round 5c the "
                    f"theorem per_component_loop_eq_per_node for every undirected network; the "
-                   f"driver's flag is kept as a cross-check) ({ncomp} requests)",
+                   f"driver's flag is kept as a cross-check); round 5d: the exact Gauss-Jordan inverse "
+                   f"of every component satisfies SolvesL/SolvesR (flag csolves), the only "
+                   f"hypotheses of nsi_newman_wrapped_split_checked -- nsi_arenas_wrapped_split "
+                   f"needs none; newmanAll/arenasAll == nsiNewman/arenasB is a theorem "
+                   f"({ncomp} requests)",
                    "correspondence", not bad_comp, "\n".join(bad_comp[:6]))
     ctx.extra["values_compared"] = nvals
     extras(ctx)
@@ -798,6 +802,11 @@ def check_comp(ctx, ans, impl_pack, n, where):
         bad.append(f"{where}: components model={mb.get('comps')} igraph={comps}")
     if mb.get("pernode") != "1":
         bad.append(f"{where}: the component loop does not store every node's own component value")
+    # round 5d: hypothesis of nsi_newman_wrapped_split_checked (only where the model returns an
+    # array at all: on a singular component neither the theorem nor the flag says anything)
+    if mb.get("newman", "singular") != "singular" and mb.get("csolves") != "1":
+        bad.append(f"{where}: the Gauss-Jordan grounded inverse of some component does not satisfy "
+                   f"SolvesL/SolvesR exactly (hypothesis of nsi_newman_wrapped_split_checked)")
     pairs = [("newman", "nsi_newman_betweenness_comp@oracle"),
              ("newman_ends", "nsi_newman_betweenness_ends@oracle"),
              ("arenas", "nsi_arenas_betweenness_comp@oracle"),
